@@ -935,6 +935,18 @@ pub fn run(case: &str, ctx: &mut Ctx) -> String {
                     ctx.fail(format!("partitioner name {:?} selects cdc={}, expected cdc={}", name, selected_cdc, e));
                 }
             }
+            // the rule itself, restated on bytes: CDC iff the name ends in "CDCPartitioner" (a name cannot end in both)
+            let ends = |pat: &[u8]| {
+                let b = name.as_deref().unwrap_or("").as_bytes();
+                b.len() >= pat.len() && &b[b.len() - pat.len()..] == pat
+            };
+            let rule_cdc = name.is_some() && ends(b"CDCPartitioner") && !ends(b"Murmur3Partitioner");
+            if selected_cdc != rule_cdc {
+                ctx.fail(format!(
+                    "partitioner name {:?} selects cdc={}, but its suffix says cdc={}",
+                    name, selected_cdc, rule_cdc
+                ));
+            }
             if parsed.is_none() && selected_cdc {
                 ctx.fail("an unrecognised partitioner name selected the CDC partitioner instead of the default");
             }
